@@ -3428,16 +3428,21 @@ class RegexMatch(Match):
         if nfdfa_state in self.dfa_2.finishing_states:
             into.mark_accepting(new_state)
 
+        used_else = False
         for source, target in transitions.items():
-            if isinstance(source, InvertedRegexCharClass):
-                # TODO: handle multiple of these
+            if isinstance(source, InvertedRegexCharClass) and not used_else:
                 # Convert to a normal set
+                used_else = True
                 new_transitions[source.chars | frozenset((DFTransition.End,))] = (else_path, False)
                 new_transitions[frozenset((DFTransition.Else,))] = (self._create_dfa_state(target, into, False, else_path), target in self.dfa_2.finishing_states)
                 new_transition_upstreams[DFTransition.Else] = nfdfa_state.transition_dbg_metas[source]
             else:
-                new_transitions[source.chars] = (self._create_dfa_state(target, into, False, else_path), target in self.dfa_2.finishing_states)
-                for i in source.chars:
+                chars = source.chars
+                if isinstance(source, InvertedRegexCharClass):
+                    # only one inverted class can use the else transition; a further (disjoint) one lists its members
+                    chars = frozenset(chr(i) for i in range(256)) - source.chars
+                new_transitions[chars] = (self._create_dfa_state(target, into, False, else_path), target in self.dfa_2.finishing_states)
+                for i in chars:
                     new_transition_upstreams[i] = nfdfa_state.transition_dbg_metas[source]
 
         # Simplify
